@@ -1,0 +1,80 @@
+//go:build verif
+
+// Contracts for the deductive verifier in /verif (govc). Comment-only: this file adds no code.
+package cmdutils
+
+// ---- C13: activations pair up, blocks are closed, the in-progress mark is released
+
+// The activation handle deactivates at most once: only while its flag is set, and the flag is cleared first.
+//@ func (*SequenceDiagramWriter).Activated$1
+//@   requires s != nil
+//@   requires [counters-non-negative] forallstr(k, s.Active[k] >= 0)
+//@   assert @call:cmdutils.(*SequenceDiagramWriter).Deactivate [only-while-active] !active && arg1 == agent
+//@   ensures [inactive-afterwards] !active
+//@   ghostset @call:cmdutils.(*SequenceDiagramWriter).Deactivate released
+//@   ensures [active-handle-releases] old(active) ==> ghost("released")
+
+// Activation returns a handle that is active exactly when an `activate` line was written.
+//@ func (*SequenceDiagramWriter).Activated
+//@   requires s != nil
+//@   requires [counters-non-negative] forallstr(k, s.Active[k] >= 0)
+//@   ghostset @call:cmdutils.(*SequenceDiagramWriter).Activate activated
+//@   ensures [activates-unless-suppressed] !suppressed == ghost("activated")
+//@   assert @call:cmdutils.(*SequenceDiagramWriter).Activate [own-agent] arg1 == agent
+
+// Counters never go below zero: deactivating an agent that is not active does nothing.
+//@ func (*SequenceDiagramWriter).Deactivate
+//@   requires s != nil
+//@   requires [counters-non-negative] forallstr(k, s.Active[k] >= 0)
+//@   assert @mapupdate:map[string]int [counter-stays-non-negative] stored >= 0 && stored == maptarget[mapkey] - 1 && mapkey == agent
+//@ func (*SequenceDiagramWriter).Activate
+//@   requires s != nil
+//@   requires [counters-non-negative] forallstr(k, s.Active[k] >= 0)
+//@   assert @mapupdate:map[string]int [one-more-activation] stored == maptarget[mapkey] + 1 && mapkey == agent
+
+// A block: opened, indented, its statements visited with the block's own list and last-statement flag, and on
+// success unindented again.
+//@ func (*SequenceDiagramVisitor).visitBlockStmt
+//@   ghostset @call:cmdutils.(*SequenceDiagramWriter).Indent indented
+//@   ghostset @call:cmdutils.(*SequenceDiagramWriter).Unindent unindented
+//@   assert @call:cmdutils.(*SequenceDiagramVisitor).visitStatment [child-carries-own-list] arg1.stmts == stmts && arg1.isLastParentStmt == isLastStmt && ghost("indented")
+//@   ensures [indent-paired-on-success] result == nil ==> ghost("indented") && ghost("unindented")
+
+// A group-like block (opt / loop / group) is closed with `end` whenever its body was visited successfully.
+//@ func (*SequenceDiagramVisitor).visitGroupStmt
+//@   ghostset @call:fmt.Fprintln closed
+//@   mark @after:cmdutils.(*SequenceDiagramVisitor).visitBlockStmt#1 body
+//@   ensures [closed-when-body-succeeded] at("body", callresult) == nil ==> ghost("closed")
+//@   assert @call:cmdutils.(*SequenceDiagramVisitor).visitBlockStmt [same-list-and-flag] arg1 == e && arg2 == stmts && arg3 == isLastStmt
+
+// An alternative: every choice is a block, only the last choice of a last statement carries the last-statement flag,
+// and `end` is written after the last choice.
+//@ func (*SequenceDiagramVisitor).visitAlt
+//@   assert @call:cmdutils.(*SequenceDiagramVisitor).visitBlockStmt [last-flag-only-on-last-choice] arg1 == e && arg2 == choice.GetStmt() && arg3 == (lastStmt && j == len(c.GetChoice()) - 1)
+//@   ghostset @call:fmt.Fprintln closed
+//@   ghostclear @iter:0 visited
+//@   ghostset @call:cmdutils.(*SequenceDiagramVisitor).visitBlockStmt visited
+//@   loop 0 step [every-choice-is-a-block] ghost("visited")
+
+// Every container kind goes through visitGroupStmt with its own statements and the flag of its position.
+//@ func (*SequenceDiagramVisitor).visitCond
+//@   assert @call:cmdutils.(*SequenceDiagramVisitor).visitGroupStmt [own-statements] arg1 == e && arg2 == c.GetStmt() && arg3 == e.isLastStmt(i)
+//@ func (*SequenceDiagramVisitor).visitLoop
+//@   assert @call:cmdutils.(*SequenceDiagramVisitor).visitGroupStmt [own-statements] arg1 == e && arg2 == c.GetStmt() && arg3 == e.isLastStmt(i)
+//@ func (*SequenceDiagramVisitor).visitLoopN
+//@   assert @call:cmdutils.(*SequenceDiagramVisitor).visitGroupStmt [own-statements] arg1 == e && arg2 == c.GetStmt() && arg3 == e.isLastStmt(i)
+//@ func (*SequenceDiagramVisitor).visitForeach
+//@   assert @call:cmdutils.(*SequenceDiagramVisitor).visitGroupStmt [own-statements] arg1 == e && arg2 == c.GetStmt() && arg3 == e.isLastStmt(i)
+//@ func (*SequenceDiagramVisitor).visitGroup
+//@   assert @call:cmdutils.(*SequenceDiagramVisitor).visitGroupStmt [own-statements] arg1 == e && arg2 == c.GetStmt() && arg3 == e.isLastStmt(i)
+
+// The recursion cut: an endpoint is expanded only while it is not in progress; the in-progress count of its name goes
+// up by one before its statements are visited and down by one afterwards, and the activation taken for it is released.
+//@ func (*SequenceDiagramVisitor).visitEndpoint
+//@   maypanic
+//@   assert @mapupdate:map[string]int [mark-moves-by-one] mapkey == visiting && (stored == maptarget[mapkey] + 1 || stored == maptarget[mapkey] - 1)
+//@   ghostset @call:cmdutils.(*StatementElement).Accept descended
+//@   ghostclear @call:cmdutils.(*StatementElement).Accept released
+//@   ghostset @mapupdate:map[string]int released
+//@   ensures [in-progress-mark-released] result == nil && ghost("descended") ==> ghost("released")
+//@   assert @call:cmdutils.(*StatementElement).Accept [expanded-only-when-not-in-progress] !hitVisited && arg0.stmts == endpoint.Stmt && arg0.isLastParentStmt
